@@ -1,5 +1,6 @@
 import NomtModel.Props.C05_Seek
 import NomtModel.Store.SeekerInv
+import NomtModel.Store.SeekerCount
 /-!
 # C05 / C13 — the `Seeker` (`nomt/src/merkle/seek.rs`): request multiplexing over the I/O pool
 
@@ -138,6 +139,51 @@ theorem T5_seeker_is_proveSpec [DecidableEq Node] [DecidableEq VH] (W : World No
   obtain ⟨res, hres⟩ := hres
   exact ⟨res, hres, completed_result hok hres⟩
 
+/-- **T5.seeker.nostall** (the exact boundary of the stall observation; partial: the re-submission of requests that
+wait for nothing is not covered): for EVERY world, hash table, `MAX_INFLIGHT` and every run in which no read is lost to
+an I/O error (`recvErr` abandons the whole update in the real code), at every moment
+* every waiter list has exactly one load, in flight or parked: `|io_waiters| = reads in flight + |idle_page_loads|`;
+* a seeker that has no room (`!has_room()`) and FEWER than `MAX_INFLIGHT` parked loads has a read in flight —
+  `recv_page` will return;
+* whenever some request waits for a load (`io_waiters` not empty) and fewer than `MAX_INFLIGHT` loads are parked, a read
+  is in flight after `submit_all` (with room, `submit_all` re-probes every parked load).
+So a state "requests wait for I/O, nothing in flight, `submit_all` changes nothing" needs ALL `MAX_INFLIGHT` loads
+parked at once — which `T5_seeker_stall_all_loads_idle_counterexample` shows is enough.  No hypothesis on the world
+(`Store/SeekerCount.lean`: "if the call returns, then …"); that the calls do return is `T5_seeker_is_proveSpec`. -/
+theorem T5_seeker_no_stall_partial (env : Env Node VH V) (ht : Ht) (maxInflight : Nat) (cache : List (PageId × MPage Node))
+    (ps : PageSet Node) (leafCache : List Nat) (ops : List Seeker.Op) (hne : noErr ops) (s : Seeker.Run Node VH V)
+    (h : Seeker.run env ht { m := { maxInflight := maxInflight, cache := cache, ps := ps, leafCache := leafCache } } ops = .ok s) :
+    s.m.waiters.length = s.m.inflight.length + s.m.idleLoads.length ∧
+    (s.m.hasRoom = false → s.m.idleLoads.length < s.m.maxInflight → s.m.inflight ≠ []) ∧
+    (∀ m', s.m.waiters ≠ [] → s.m.idleLoads.length < s.m.maxInflight → submitAll env ht s.m = .ok m' →
+      m'.inflight ≠ []) := by
+  obtain ⟨c0, b0⟩ := cinv_init (Node := Node) (VH := VH) (V := V) maxInflight cache ps leafCache
+  obtain ⟨c, b, _⟩ := run_c env ht ops _ s hne c0 h
+  rw [b0] at b
+  have hcount : s.m.waiters.length = s.m.inflight.length + s.m.idleLoads.length := by
+    simp only [bal] at b
+    omega
+  have hfull : s.m.hasRoom = false → s.m.idleLoads.length < s.m.maxInflight → s.m.inflight ≠ [] := by
+    intro hr hl he
+    unfold Mux.hasRoom at hr
+    have : ¬ s.m.waiters.length < s.m.maxInflight := by simpa using hr
+    rw [he] at hcount
+    simp only [List.length_nil] at hcount
+    omega
+  refine ⟨hcount, hfull, ?_⟩
+  intro m' hw hl hs
+  obtain ⟨_, _, _, mono, room⟩ := submitAll_c env ht _ _ c hs
+  cases hr : s.m.hasRoom with
+  | false => exact mono (hfull hr hl)
+  | true =>
+    by_cases hi : s.m.idleLoads = []
+    · apply mono
+      intro he
+      rw [he, hi] at hcount
+      simp only [List.length_nil] at hcount
+      exact hw (List.length_eq_zero_iff.1 (by omega))
+    · exact room hr hi
+
 /-! ### non-vacuity and the stall
 
 the world `skW` of `Props/C05_Seek.lean` (two keys under the root page, one b-tree leaf; `skW_ok : skW.OK`); the root
@@ -211,6 +257,11 @@ def skEmpty (o : Outcome Unit (Seeker.Run T Nat Nat)) : Option (Bool × Bool × 
 example : skEmpty (Seeker.run skEnv skHt { m := { maxInflight := 2 } }
     [.push skB, .push skA, .submitAll, .recv 0, .submitAll, .recv 0, .take, .submitAll, .recv 0, .take, .take]) =
     some (true, true, false) := by decide +kernel
+
+/-- the hypothesis of `T5_seeker_no_stall_partial` is met by those runs (no `recvErr`), and the stall below sits exactly
+on its boundary: one parked load, `MAX_INFLIGHT = 1` -/
+example : noErr [.push skB, .push skA, .submitAll, .recv 0, .submitAll, .recv 0, .take, .submitAll, .recv 0, .take, .take] ∧
+    noErr [.push skB, .submitAll, .recv 0] := ⟨trivial, trivial⟩
 
 /-- the slab lemma on a slab in use: index 0 freed, index 1 in use — `insert` hands out 0 again -/
 example : ({ entries := [.vac 2, .occ (.leaf 7)], next := 0, len := 1 } : Slab).insert (.leaf 3) =
